@@ -26,6 +26,11 @@
 (*                  Mean Sum Constant                                       *)
 (*   LawC10         A_{pi P}(pi J) = A_P(J)  Mean Sum Constant TrimmedMean  *)
 (*                  Krum (selection permuted, ambiguity flag invariant)    *)
+(*   RowBracket     the Rayleigh bracket of the singular values by the     *)
+(*                  squared row norms (see below): with it the side of     *)
+(*                  norm_eps on which sigma_max AND the smallest non-zero  *)
+(*                  singular value of 2^e diag(c) J lie is decided exactly *)
+(*                  from gd = diag(Gram(J)) and c (UPGrad ladder of C09)   *)
 (*   Export         prints the scenario with the expected values and the   *)
 (*                  exact classification of the instance                   *)
 (***************************************************************************)
@@ -272,6 +277,29 @@ LawC09 ==
     /\ LET A(X) == SymConstant(P, X, den, N) IN Lin(A)
     /\ LET A(X) == SymConstant(W, X, den, N) IN Lin(A)
 
+\* ---- singular values of a row-scaled matrix X = diag(c) J against a threshold (norm_eps of UPGrad)
+\* For ANY real matrix X with rows x_i:  |x_i|^2 = |X^T e_i|^2 lies between the extreme eigenvalues of the
+\* part of X X^T it lives on, hence
+\*     max_i |x_i|^2 <= sigma_max(X)^2 <= sum_i |x_i|^2 ,
+\*     sigma_r(X)^2  <= min { |x_i|^2 : x_i # 0 }   when the r non-zero rows are linearly independent.
+\* With |x_i|^2 = c_i^2 gd[i] (gd = exact squared row norms exported with the scenario, c_i powers of two
+\* times a, b <= 3) both sides of  norm_eps^2 4^-e  are decided by exact arithmetic on (gd, c): a triple
+\* (a c1 + b c2, c1, c2) has its LARGEST singular values uniformly above norm_eps while the smallest row
+\* of one of the three matrices certifies a non-zero singular value BELOW norm_eps as soon as the entries
+\* of c1 and c2 straddle norm_eps 2^-e / |g_i| - reached by two bumps (c_i in {1, 2^10, 2^20}).
+\* c_i^2 overflows TLC's integers, so TLC checks the bracket where it can evaluate every term: on the
+\* instance itself (c = 1), against its own exact floor of sigma_max^2 and a positive-definiteness test.
+GDiag == [i \in 1..M |-> GNow[i][i]]
+MaxDiag == IF M = 0 THEN 0 ELSE CHOOSE x \in Range(GDiag) : \A y \in Range(GDiag) : y <= x
+NZDiag  == {GDiag[i] : i \in SymNonZeroRows(GNow)}
+MinNZDiag == IF NZDiag = {} THEN 0 ELSE CHOOSE x \in NZDiag : \A y \in NZDiag : x <= y
+RowBracket ==
+    /\ MaxDiag <= cls.lamFloor /\ cls.lamFloor <= cls.trG                   \* max |g_i|^2 <= sigma_max^2 <= tr G
+    /\ (cls.rankUnamb /\ cls.rank >= 1) =>                                   \* lambda_min(G') <= min |g_i|^2 :
+          LET nz == SymSeqOf(SymNonZeroRows(GNow))                            \* G' - t I is NOT positive definite
+              H  == SymSub(GNow, nz)
+          IN  ~SymPD([i \in 1..Len(nz) |-> [j \in 1..Len(nz) |-> H[i][j] - (IF i = j THEN MinNZDiag ELSE 0)]])
+
 \* the classification is a function of the Gramian up to simultaneous permutation: it must not
 \* move along a path (this is what allows the harness to use ONE classification per instance)
 ClassInvariant ==
@@ -301,7 +329,7 @@ Scenario ==
      J0 |-> base.J, P0 |-> base.P, W0 |-> base.W,
      rp |-> rp, Q |-> Q, den |-> den, J |-> J, P |-> P, W |-> W,
      c1 |-> c1, c2 |-> c2, a |-> ca, b |-> cb,
-     colperm |-> QIsColPerm, cls |-> cls, prefDeg |-> PrefDeg,
+     colperm |-> QIsColPerm, cls |-> cls, prefDeg |-> PrefDeg, gd |-> GDiag,
      exp |-> ExpLinear(J, den), rob |-> ExpRobust,
      lin |-> IF Mode = "scale"
              THEN [x |-> ExpLinear(RowScale(XC, J), den), x1 |-> ExpLinear(RowScale(c1, J), den),
